@@ -409,11 +409,11 @@ class Lifecycle:
         if name == "onWelcome":
             if self.phase in ("hello", "auth"):
                 return self._welcome_done("raise" if how == "raise" else "return", first=False)
-            return self._exp(send_may=[ABORT], cb_may=["onJoin"])
+            return self._exp(send_may=[ABORT], cb_may=["onJoin"], close_may=True)
         if name == "onChallenge":
             if self.phase in ("hello", "auth"):
                 return self._challenge_done("raise" if how == "raise" else "return", first=False)
-            return self._exp(send_may=[ABORT, AUTHENTICATE], cb_may=["onLeave"])
+            return self._exp(send_may=[ABORT, AUTHENTICATE], cb_may=["onLeave"], close_may=True)
         return self._exp()          # onJoin / onLeave: nothing further is demanded
 
     # --- local requests -----------------------------------------------------------------
